@@ -2,13 +2,13 @@
    separated by BREAK nodes; no layout, no style: the region "bottom" and the style "default" of the writer's defaults),
    after BeautifulSoup.prettify: one element per line, indented by one blank per level; a <p> holds the payload
    _recreate_text assembles (lines escaped by xml.sax.saxutils.escape, joined by "<br/>" + newline + four blanks).
-   The document is expressed in the abstract syntax of spec/SpecXmlDoc.v (so that it IS a rendering) and printed by
+   The document is expressed in the abstract syntax of spec/SpecXmlDocT.v (so that it IS a rendering) and printed by
    render_doc; the harness compares the text with the real writer's character by character (request 207).
    The timing attributes are the C02 writer model's tokens (TimeWrite.dfxp_ts): DfxpWriteDocFacts.ts_texpr_token.
    Definitions only. *)
 From Coq Require Import List ZArith Bool.
 From PV Require Import lib.Sx lib.Str lib.Dec.
-From PV Require Import model.TimeRead spec.SpecTime spec.SpecXmlDoc.
+From PV Require Import model.TimeRead spec.SpecTime spec.SpecXmlDocT.
 Import ListNotations.
 Open Scope Z_scope.
 
